@@ -47,7 +47,7 @@ uint64_t MHD_monotonic_msec_counter (void) { return vclock_ms; }
 /* ---------------------------------------------------------------- config */
 static struct {
   char mode[16]; size_t mem; unsigned limit, perip, timeout;
-  int upgrade, suspend, nts;
+  int upgrade, suspend, nts; unsigned pool;
 } hcfg;
 
 static struct MHD_Daemon *hd;
@@ -329,6 +329,7 @@ static void ip_walk (const void *nodep, VISIT which, int depth)
 static unsigned dll_len (struct MHD_Connection *head)
 { unsigned n = 0; for (; head; head = head->next) n++; return n; }
 
+static int threaded (void);
 static void report (void)
 {
   const union MHD_DaemonInfo *di;
@@ -336,6 +337,7 @@ static void report (void)
   if (NULL == hd) return;
   LIB (di = MHD_get_daemon_info (hd, MHD_DAEMON_INFO_CURRENT_CONNECTIONS));
   out ("conns %u", di ? di->num_connections : 0u);
+  if (threaded ()) return;
   out ("lists new=%u act=%u susp=%u clean=%u", dll_len (hd->new_connections_head), dll_len (hd->connections_head),
        dll_len (hd->suspended_connections_head), dll_len (hd->cleanup_head));
   ipa.n = 0; ipa.txt[0] = 0;
@@ -381,6 +383,7 @@ static void start_daemon (void)
   if (hcfg.mem) { ops[n].option = MHD_OPTION_CONNECTION_MEMORY_LIMIT; ops[n].value = (intptr_t) hcfg.mem; ops[n++].ptr_value = NULL; }
   if (hcfg.limit) { ops[n].option = MHD_OPTION_CONNECTION_LIMIT; ops[n].value = hcfg.limit; ops[n++].ptr_value = NULL; }
   if (hcfg.perip) { ops[n].option = MHD_OPTION_PER_IP_CONNECTION_LIMIT; ops[n].value = hcfg.perip; ops[n++].ptr_value = NULL; }
+  if (hcfg.pool) { ops[n].option = MHD_OPTION_THREAD_POOL_SIZE; ops[n].value = hcfg.pool; ops[n++].ptr_value = NULL; }
   if (hcfg.timeout) { ops[n].option = MHD_OPTION_CONNECTION_TIMEOUT; ops[n].value = hcfg.timeout; ops[n++].ptr_value = NULL; }
   ops[n].option = MHD_OPTION_NOTIFY_COMPLETED; ops[n].value = (intptr_t) &completed; ops[n++].ptr_value = NULL;
   ops[n].option = MHD_OPTION_NOTIFY_CONNECTION; ops[n].value = (intptr_t) &notify_conn; ops[n++].ptr_value = NULL;
@@ -453,6 +456,7 @@ int main (void)
         else if (kv (l.w[i], "upgrade", &v)) hcfg.upgrade = atoi (v);
         else if (kv (l.w[i], "suspend", &v)) hcfg.suspend = atoi (v);
         else if (kv (l.w[i], "nts", &v)) hcfg.nts = atoi (v);
+        else if (kv (l.w[i], "pool", &v)) hcfg.pool = (unsigned) atoi (v);
       }
       out ("ok");
     }
@@ -533,6 +537,16 @@ int main (void)
     else if (! strcmp (op, "epoll-fail")) { epoll_fail_next = 1; fail_site = 0; out ("ok"); }
     else if (! strcmp (op, "stop")) stop_daemon ();
     else if (! strcmp (op, "alloc-fail-off")) { fail_k = 0; fail_site = 0; epoll_fail_next = 0; out ("ok"); }
+    else if (! strcmp (op, "pool-limits"))
+    { /* white-box: how MHD_start_daemon split the connection limit among the pool workers */
+      unsigned k;
+      flockfile (stdout);
+      printf ("pool n=%u limits=", hd->worker_pool_size);
+      if (0 == hd->worker_pool_size) putchar ('-');
+      for (k = 0; k < hd->worker_pool_size; k++) printf ("%s%u", k ? "," : "", hd->worker_pool[k].connection_limit);
+      putchar ('\n');
+      funlockfile (stdout);
+    }
     else if (! strcmp (op, "defaults")) out ("defaults limit=%u pool=%zu", hd->connection_limit, hd->pool_size);
     else if (! strcmp (op, "mark")) out ("mark %s", l.n > 1 ? l.w[1] : "-");
     else out ("bad-op");
